@@ -7,7 +7,10 @@ prop("C09",
                 "configured afterwards, from any previous memory), reload_atomic and allocateSpecific_atomic (parameterised by "
                 "the regenerated lock facts: the scheduled two-step reload equals the atomic one; does not build if the list "
                 "moves out of the lock), reload_two_step_counter (the pre-fix defect D6 in the model), fact_reload_atomic. "
-                "IPAM level; the pod-annotation clause is model M4's.",
+                "IPAM level; the pod-annotation clause is model M4's.  The plugin-level reload path (ensureIPAMConf around "
+                "ConfigurePool) is covered by Props/C20 store_failure_changes_nothing / store_failure_retried and here by the "
+                "scripted history reload-retry-after-store-failure on the real plugin (a failed reload changes nothing and the "
+                "same text is applied at the next poll, so de-configured addresses do not stay served).",
      level_note="Full on the model. 'Allocations made while the reload is in progress' is discharged by atomicity: the lock is "
                 "held from before the list (fact), the thorough harness confirms on the real code that a concurrent "
                 "allocation / release blocks until the reload is done.",
